@@ -42,6 +42,16 @@ def enclosing(node, types):
         n = getattr(n, "_parent", None)
 
 
+def isinstance_types(fnode):
+    """the type names a function tests its arguments against with isinstance (a tuple of types counts as each of them)"""
+    out = set()
+    for c in ast.walk(fnode):
+        if isinstance(c, ast.Call) and norm(c.func) == "isinstance" and len(c.args) == 2:
+            for e in (c.args[1].elts if isinstance(c.args[1], ast.Tuple) else [c.args[1]]):
+                out.add(norm(e))
+    return sorted(out)
+
+
 def in_body(node, stmts):
     return any(node is x for s in stmts for x in ast.walk(s))
 
@@ -52,8 +62,7 @@ def check_C01(A: Analysis, tier):
     ra = Rule("C01", "C01.a", "every attribute Stream uses on the wrapped object belongs to the interface of the "
               "stream type _check_arg_data admits, or is guarded (hasattr / try catching AttributeError)", floor=5)
     cad = A.impl("_check_arg_data")
-    admitted = sorted({norm(c.args[1]) for c in ast.walk(cad.node)
-                       if isinstance(c, ast.Call) and norm(c.func) == "isinstance" and len(c.args) == 2})
+    admitted = isinstance_types(cad.node)
     if not any("Buffered" in a or "IOBase" in a for a in admitted):
         raise AnalysisError(f"_check_arg_data no longer admits a stream type (admits {admitted})")
     iface = set()
@@ -468,6 +477,29 @@ def find_accepted_algorithms(A):
     return wp, None, None
 
 
+def binary_open_rule(A, rule):
+    seen = set()
+    for it in A.all_api_runs():
+        for ev in it.events:
+            if not (ev.prim in ("open", "io.open") or ev.prim.endswith(".open")) or not ev.classes:
+                continue
+            cls = {c.cls for c in primary(ev.classes[0])} & {"OBJ", "META", "EXTERNAL"}
+            tmpobj = any(c.cls == "TMP" and c.key in (C("objects"), C("metadata")) for c in primary(ev.classes[0]))
+            if not cls and not tmpobj:
+                continue
+            k = (ev.func.qual, ev.line)
+            if k in seen:
+                continue
+            seen.add(k)
+            rule.ob()
+            mode = ev.extra.get("mode") or "r"
+            rule.inst(f"{ev.func.qual}:{ev.line} open(..., {mode!r}) of {sorted(cls) or ['TMP']}")
+            if "b" not in str(mode):
+                rule.fail(site_func(ev), site_text(ev), f"{'/'.join(sorted(cls) or ['TMP'])} is opened in text mode ({mode!r}): what is read is decoded text with "
+                          "translated line ends, not the stored bytes - a digest computed from it is wrong for CRLF / CR content and the read fails for "
+                          "non-UTF-8 content", site_loc(A, ev), {"entry": it.entry})
+
+
 def check_C02(A: Analysis, tier):
     rules = []
     ra = Rule("C02", "C02.a", "no function mutates the instance/class algorithm tables or the required-key table, "
@@ -679,6 +711,10 @@ def check_C02(A: Analysis, tier):
         if True:
             _sh.fail(f.func, f.construct, f.message, f.loc, f.detail)
     rules.append(_sh)
+    rk2 = Rule("C02", "C02.k", "every open of a data object, a metadata document or a caller's data path is binary: a text-mode handle decodes the "
+               "bytes and translates line ends (CRLF / CR content hashes and reads back as something else; bytes that are not UTF-8 raise)", floor=3)
+    binary_open_rule(A, rk2)
+    rules.append(rk2)
     rj2 = Rule("C02", "C02.j", "the functions that compute and report digests read no local that some path leaves unbound (an empty object never "
                "enters the read loop; shared with C08.g): a digest is returned for every content, the empty one included", floor=9)
     from .rules_locks import unbound_reads_rule
@@ -921,6 +957,34 @@ def check_C06(A: Analysis, tier):
                              "references yet - its error replaces the documented mismatch error", site_loc(A, ev), {"entry": e, "mode": m})
     rules.append(rh6)
 
+    rj6 = Rule("C06", "C06.j", "zero is a size: no decision in store_object / delete_if_invalid_object is taken on the truth value of a measured size "
+               "(os.path.getsize of the temp file / object, ObjectMetadata.obj_size) - `if size:` / `all((.., size))` treat the empty object as "
+               "'no size known', so its validation is skipped or it is refused as incomplete", floor=2)
+
+    def measured(v):
+        return any(tag(x) == "probe" and x[1] in ("getsize", "stat") or (tag(x) == "iattr" and x[2] in ("obj_size", "st_size")) for t in v for x in subterms(t))
+
+    for e in ("store_object", "delete_if_invalid_object"):
+        it = A.api(e, "th")
+        rj6.ob()
+        rj6.inst(f"{e}: {len(it.exits)} exit state(s), {len(it.raise_sites)} raise site(s)")
+        seenj = set()
+        states = [(None, st_) for k_, l_, st_, rv_ in it.exits] + [(rn_, s_) for (rf_, rn_, s_, rctx) in it.raise_sites]
+        for node_, st_ in states:
+            for f_, pol in st_.facts:
+                for a_ in F.atoms_of(f_):
+                    if a_[0] == "truthy" and measured(a_[1]) and repr(a_) not in seenj:
+                        seenj.add(repr(a_))
+                        fn_ = A.impl(e)
+                        rj6.fail(fn_, f"truth value of {showv(a_[1])[:60]}", f"{e} takes a decision on the truth value of a measured size ({showv(a_[1])[:60]}): for an empty "
+                                 "object (0 bytes) the size counts as missing - its validation is skipped, or the object is refused / treated as incomplete, "
+                                 "although 0 is the true byte count", A.p.loc(fn_, node_ if node_ is not None else fn_.node), {"entry": e})
+    rules.append(rj6)
+
+    ri6 = Rule("C06", "C06.i", "the bytes a verdict is computed from are the stored bytes: data objects are opened in binary mode only (shared with C02.k)", floor=3)
+    binary_open_rule(A, ri6)
+    rules.append(ri6)
+
     from .rules_locks import shared_state_rule
     rs6 = Rule("C06", "C06.f", "the verdict and its clean-up use only this call's own values: no per-call state is parked in the shared "
                "store object (shared with C07.g)", floor=10)
@@ -1011,7 +1075,7 @@ def check_C13(A: Analysis, tier):
     rules = []
     ra = Rule("C13", "C13.a", "every handler that can catch an OSError ends in raise on every path, except the tabled "
               "swallowers (one reason each)", floor=18)
-    for f in [fn for fn in A.p.funcs.values() if fn.module.name == "filehashstore"]:
+    for f in [fn for fn in A.p.funcs.values() if fn.module.name not in ("hashstoreclient", "__init__", "filehashstore_exceptions") and not fn.inherited]:
         for t in func_nodes(f, ast.Try):
             for h in t.handlers:
                 if not os_capable(h):
@@ -1197,7 +1261,7 @@ def check_C13(A: Analysis, tier):
     rh = Rule("C13", "C13.h", "no `return`, `break` or `continue` inside a `finally` block: it silently discards the exception in "
               "flight (an I/O error would turn into a normal completion)", floor=1)
     nfin = 0
-    for f in [fn for fn in A.p.funcs.values() if fn.module.name == "filehashstore"]:
+    for f in [fn for fn in A.p.funcs.values() if fn.module.name not in ("hashstoreclient", "__init__", "filehashstore_exceptions") and not fn.inherited]:
         for t in func_nodes(f, ast.Try):
             if not t.finalbody:
                 continue
@@ -1372,6 +1436,29 @@ def check_C14(A: Analysis, tier):
                 if not okalg:
                     rb.fail(site_func(ev), site_text(ev), "the store root / configuration file is created before the store algorithm was "
                             "checked against the accepted list", site_loc(A, ev))
+    # what is tested against the accepted list is the very value that is recorded (not an upper-cased / stripped copy of it)
+    bq = A.impl_q("_build_hashstore_yaml_string")
+    bnode = A.p.func(bq).node
+    bdict = next((n for n in ast.walk(bnode) if isinstance(n, ast.Dict) and any(isinstance(k, ast.Constant) and k.value == "store_algorithm" for k in n.keys)), None)
+    aparam = None
+    if bdict is not None:
+        for k, v in zip(bdict.keys, bdict.values):
+            if isinstance(k, ast.Constant) and k.value == "store_algorithm" and isinstance(v, ast.Name):
+                aparam = v.id
+    for c in it.calls:
+        if c["callee"] != bq or aparam is None:
+            continue
+        vals = (c.get("argmap") or {}).get(aparam)
+        if not vals:
+            continue
+        rb.ob()
+        rb.inst(f"{c['func'].qual}:{c['node'].lineno} store_algorithm written: {showv(vals)[:50]}")
+        tested = [a for f, pol in c["state"].facts for a in F.atoms_of(f) if a[0] == "cmp" and a[1] == "in" and F.implied(c["state"].facts, a) is True]
+        if not any(a[2] == vals for a in tested):
+            rb.fail(c["func"], c["node"], "the store algorithm that is recorded in hashstore.yaml is not the value that was tested against the accepted list "
+                    f"(tested: {[showv(a[2])[:40] for a in tested][:2]}, written: {showv(vals)[:40]}): an unsupported spelling passes the gate, the "
+                    "configuration is written, and only then the constructor fails - files are left behind and the directory is pinned to the bad value",
+                    A.p.loc(c["func"], c["node"]))
     rules.append(rb)
 
     rc = Rule("C14", "C14.c", "hashstore.yaml is created only by _write_properties, only when tested absent there and "
@@ -1652,7 +1739,7 @@ def check_C17(A: Analysis, tier):
     if not normal_i:
         rc.fail(ci, "return", "_check_integer never returns normally for a given size", A.p.loc(ci, ci.node))
     cd = A.impl("_check_arg_data")
-    types = sorted({norm(c.args[1]) for c in ast.walk(cd.node) if isinstance(c, ast.Call) and norm(c.func) == "isinstance" and len(c.args) == 2})
+    types = isinstance_types(cd.node)
     rc.inst(f"_check_arg_data admits {types}")
     rc.ob(2)
     if types != ["Path", "io.BufferedIOBase", "str"]:
